@@ -124,6 +124,7 @@ func main() {
 	spawn(timed("empty chain", func() { runEmptyChain(res, pool, v, r.Fork(4446)) }))
 	spawn(timed("v8 reorg", func() { runV8Reorg(res, pool, v, r.Fork(4447)) }))
 	spawn(timed("subscription edges", func() { runSubscriptionEdges(bases, res, pool, v, r.Fork(4448)) }))
+	spawn(timed("codec", func() { runCodec(f.Driver, res, r.Fork(4450), f.Thorough()) }))
 	spawnFar(timed("lru purged", func() { runLRUReset(far, res, v, r.Fork(4449)) }))
 	spawnFar(func() { t := time.Now(); runLRU(far, res, v, r.Fork(4343)); logf("lru: %v", time.Since(t)) })
 	nRandom := f.Scale(24, 400)
@@ -207,6 +208,9 @@ func checkFloors(res *lib.Result, f lib.Flags) {
 		"subscription-edges:without-l1-head": 3, "subscription-edges:pre-confirmed-update": 16,
 		"subscription-edges:reorg-clears-the-deduper": 2, "subscription:v8-reorg-checked": 1, "lru-purged:iterator-query": 40,
 		"lru-purged:set-many": 2, "lru-purged:iterator-refusals-checked": 1, "query:filter-with-many-alternatives": 8,
+		// round 6
+		"codec:column-survives-the-database-form": 90, "codec:window-case-compared": 13, "codec:snapshot-case-compared": 7,
+		"query:key-position-at-the-varint-boundary": 60, "codec:window-accepted": 1, "codec:window-eof": 4, "codec:window-size": 4,
 	}
 	for k, min := range floors {
 		if got := res.Distribution[k]; got < min {
